@@ -58,20 +58,24 @@ def worlds():
     return res
 
 
-def q_string(q):
+def q_string(q, rev=False):
+    """rev: the kinds and, within a kind, the attributes in the opposite order"""
+    order = (("Doc", "doc"), ("Sec", "sec"), ("Prop", "prop"))
+    if rev:
+        order = order[::-1]
     if q["mode"] == "match":
         parts = []
-        for kind, word in (("Doc", "doc"), ("Sec", "sec"), ("Prop", "prop")):
-            ps = sorted([p for p in q["pairs"] if p["kind"] == kind], key=lambda p: p["attr"])
+        for kind, word in order:
+            ps = sorted([p for p in q["pairs"] if p["kind"] == kind], key=lambda p: p["attr"], reverse=rev)
             if ps:
                 parts.append("%s(%s)" % (word, ", ".join("%s:%s" % (p["attr"], p["val"]) for p in ps)))
         return " ".join(parts)
     parts = []
-    for kind, word in (("Doc", "doc"), ("Sec", "sec"), ("Prop", "prop")):
-        at = sorted(a["attr"] for a in q["attrs"] if a["kind"] == kind)
+    for kind, word in order:
+        at = sorted((a["attr"] for a in q["attrs"] if a["kind"] == kind), reverse=rev)
         if at:
             parts.append("%s(%s)" % (word, ", ".join(at)))
-    return "FIND %s HAVING %s" % (" ".join(parts), ", ".join(sorted(q["terms"])))
+    return "FIND %s HAVING %s" % (" ".join(parts), ", ".join(sorted(q["terms"], reverse=rev)))
 
 
 def q_dict(q):
@@ -115,7 +119,7 @@ def parse_output(text, byid):
 def replay(q):
     qd = q_dict(q)            # one parameter dictionary used for the searches on both graphs, as a caller would
     for wi, (st, g, byid) in enumerate(worlds()):
-        for way in ("string", "dict"):
+        for way in ("string", "string-rev", "dict"):
             rec = {"fam": "query", "src": "model", "world": wi, "way": way, "mode": q["mode"], "w": st, "out": "ok", "exc": "none", "blocks": []}
             if q["mode"] == "match":
                 rec["pairs"] = q["pairs"]
@@ -125,8 +129,8 @@ def replay(q):
                 rec["attrs"], rec["terms"] = q["attrs"], q["terms"]
             try:
                 ff = FuzzyFinder()
-                if way == "string":
-                    text = ff.find(mode=q["mode"], graph=g, q_str=q_string(q))
+                if way.startswith("string"):
+                    text = ff.find(mode=q["mode"], graph=g, q_str=q_string(q, rev=(way == "string-rev")))
                 else:
                     text = ff.find(mode=q["mode"], graph=g, q_params=qd)
                 rec["blocks"] = parse_output(text, byid)
